@@ -29,7 +29,7 @@ PROP = dict(
          "connection, UNSUBSCRIBE with a packet id in use, outbound QoS 2 after PUBREC, time-expired session then new "
          "session, session expiry changed by DISCONNECT / delayed will, retained set-replace-clear-expire) on all four "
          "back ends + random histories of 6..35 client operations (connect v3/v4/v5 with clean/expiry/will variants, "
-         "reconnect, take-over, subscribe with options, unsubscribe, publish QoS 0-2 retained/with properties, QoS "
+         "reconnect, take-over, subscribe with options, unsubscribe, publish QoS 0-2 retained/with properties/with a topic alias, QoS "
          "acknowledgements, clean disconnect with expiry override, connection drop, housekeeping ticks) over ids/filters/"
          "topics with ':' '_' '/' unicode: quick 40 histories on bolt+redis (every 8th on all four), thorough 400 on all "
          "four.  non-trivial = more than 3 storage writes; distinct = distinct case lines",
